@@ -193,10 +193,19 @@ def _sched_codes():
     from . import sched as S
 
     codes = []
-    for m in ("tucan.canonicalization", "tucan.serialization", "tucan.graph_utils", "tucan.io.molfile_reader",
-              "tucan.io.molfile_v2000_reader", "tucan.io.molfile_v3000_reader", "tucan.io.molfile_writer",
-              "tucan.parser.parser", "tucan.element_attributes"):
-        codes += S.code_objects_of(importlib.import_module(m))
+    base = ["tucan.canonicalization", "tucan.serialization", "tucan.graph_utils", "tucan.io.molfile_reader",
+            "tucan.io.molfile_v2000_reader", "tucan.io.molfile_v3000_reader", "tucan.io.molfile_writer",
+            "tucan.parser.parser", "tucan.element_attributes"]
+    for m in base:
+        importlib.import_module(m)
+    generated = ("tucan.parser.tucanParser", "tucan.parser.tucanLexer", "tucan.parser.tucanListener")
+    # every module of the package that is loaded (a change may add helper modules), except the generated parser
+    # classes, whose shared state (ATN, DFA caches) is reached through the runtime functions instrumented below
+    mods = sorted(k for k in sys.modules if (k == "tucan" or k.startswith("tucan.")) and k not in generated
+                  and not k.startswith(("tucan.visualization", "tucan.test_utils")))
+    for m in mods:
+        if sys.modules[m] is not None:
+            codes += S.code_objects_of(sys.modules[m])
     from antlr4.atn.ATN import ATN
     from antlr4.atn.LexerATNSimulator import LexerATNSimulator
     from antlr4.dfa.DFA import DFA
@@ -219,10 +228,13 @@ def harnesses(tier):
         "H2 failing parse||valid parse": (["parse|C2H6O/(1-7)(2-7)(3-7)(4-8)(5-8)(6-9)(7-8)(8-9)x", "parse|ClH/(1-2)"], "dfa-cold"),
         "H4 parse||canonicalize+serialize": (["parse|ClH/(1-2)", "tucan|v3:single"], "dfa-cold"),
         "H5 tucan||tucan": (["tucan|v3:salt", "tucan|v2:ethanol-d"], "dfa-cold"),
+        "H6 write||write": (["write-canon|v3:salt", "write|v3:single"], "dfa-cold"),
+        "H8 read v3||read v3": (["read|v3:star", "read|v3:split"], "dfa-cold"),
+        "H9 read v2||canon": (["read|v2:isolated", "canon|v3:salt"], "dfa-cold"),
     }
     if tier == "thorough":
         H["H3 failing||valid on warmed cache"] = (["parse|Xy/", "parse|ClH/(1-2)"], "dfa-warm")
-        H["H6 read v3||read v2||parse"] = (["read|v3:single", "read|v2:isolated", "parse|ClH/(1-2)"], "dfa-cold")
+        H["H6b read v3||read v2||parse"] = (["read|v3:single", "read|v2:isolated", "parse|ClH/(1-2)"], "dfa-cold")
         # (no permute||permute harness: permute_molecule seeds and draws from the process-wide `random` generator, so two
         # concurrent callers do disturb each other — observed with a single preemption — but the helper is not among the
         # operations C14 enumerates and C16 quantifies over graphs and seeds only; recorded in DESIGN.md §10.6)
